@@ -39,6 +39,10 @@ class _Real(object):
         return _real_fft_plan()
 
 
+def real_mods_for(task):
+    return _Real()
+
+
 def _mods(env):
     return env.m.fft_plan if env.sym else _real_fft_plan()
 
